@@ -8,7 +8,13 @@ func init() {
 		}
 		RunPipe(r)
 	}
-	engines["C09"] = RunStream
+	engines["C09"] = func(r *Run) {
+		if *flagMode == "race" {
+			RunStreamRace(r)
+			return
+		}
+		RunStream(r)
+	}
 	engines["C10"] = func(r *Run) { RunHistEdit(r, "marshal") }
 	engines["C13"] = func(r *Run) { RunHistEdit(r, "set") }
 	engines["C14"] = func(r *Run) { RunHistEdit(r, "delete") }
